@@ -80,3 +80,14 @@ Definition tok_verdict (toks : list token) : option (bool * bool) :=
   match trun st0 toks with Some st => Some (tfinal st, sunf st) | None => None end.
 
 Definition text_tokens (text : list Z) : list token := l_tokens (lres_state (lex_all init_lstate (text ++ nl))).
+
+(* every BeginBlockComment token is directly followed by a Comment token (if anything follows):
+   the lexer emits the comment text before it can emit anything else *)
+Fixpoint bc_ok (l : list token) : bool :=
+  match l with
+  | [] => true
+  | t :: r => (if kind_is t TBeginBlockComment then match r with t2 :: _ => kind_is t2 TComment | [] => true end else true)
+              && bc_ok r
+  end.
+
+Definition ends_begin (l : list token) : bool := kind_is (last l empty_token) TBeginBlockComment.
